@@ -1292,16 +1292,17 @@ impl PeerConnection {
             .inner
             .build_description(SdpType::Offer, |dir| dir)
             .await?;
-        if self.inner.config.transport_mode == TransportMode::Rtp && !Self::sdp_has_bundle(&desc) {
-            for (media_index, (transceiver, _)) in self
-                .matched_rtp_media_sections(&desc)
-                .into_iter()
-                .enumerate()
-            {
-                if media_index == 0 {
+        if self.inner.config.transport_mode == TransportMode::Rtp {
+            for (transceiver, _) in self.matched_rtp_media_sections(&desc) {
+                let Some(ice_transport) = self
+                    .inner
+                    .rtp_media_ice_transports
+                    .lock()
+                    .get(&transceiver.id())
+                    .cloned()
+                else {
                     continue;
-                }
-                let ice_transport = self.inner.direct_rtp_ice_transport(transceiver.id(), false);
+                };
                 self.ensure_direct_rtp_media_transport(&transceiver, &ice_transport, None, None)
                     .await;
             }
@@ -2773,7 +2774,10 @@ impl PeerConnection {
             return Ok(());
         }
 
-        if Self::sdp_has_bundle(desc) {
+        // An offered BUNDLE group that our answer is going to decline is not in effect.
+        let declines_bundle = desc.sdp_type == SdpType::Offer
+            && self.config().sdp_compatibility == crate::config::SdpCompatibilityMode::LegacySip;
+        if Self::sdp_has_bundle(desc) && !declines_bundle {
             self.stop_extra_rtp_media_transports();
             let bundle_tag = Self::bundle_tag_mid(desc);
             let primary = bundle_tag
@@ -4829,6 +4833,11 @@ impl PeerConnectionInner {
                 SdpType::Answer => remote_offered_bundle,
                 _ => false,
             };
+        let bundle_established = self
+            .remote_description
+            .lock()
+            .as_ref()
+            .is_some_and(PeerConnection::sdp_has_bundle);
         let local_offers_rtcp_mux = self.config.rtcp_mux_policy
             == crate::config::RtcpMuxPolicy::Require
             && self.config.sdp_compatibility != crate::config::SdpCompatibilityMode::LegacySip;
@@ -4992,7 +5001,12 @@ impl PeerConnectionInner {
                 let section_ice_transport = if mode == TransportMode::Rtp
                     || mode == TransportMode::Srtp
                 {
-                    let ice_transport = if !will_bundle && media_index > 0 {
+                    // An initial BUNDLE offer gives every m-section its own address
+                    // (RFC 9143 7.2.1): the answerer may decline BUNDLE, and then sends
+                    // each section's media to the address of that section.
+                    let shares_primary = will_bundle
+                        && (sdp_type == SdpType::Answer || bundle_established);
+                    let ice_transport = if !shares_primary && media_index > 0 {
                         self.direct_rtp_ice_transport(transceiver.id(), false)
                     } else {
                         self.ice_transport.clone()
